@@ -143,6 +143,19 @@ func c02QuickPoints(seed int64) []float32 {
 	for _, j := range []float64{0.0031308, 0.04045, 1.0 / 512, 16.0 / 512, 0, 1} {
 		add(float32(j))
 	}
+	// what the decoders return: the exact float32 each 8-bit code (and every 16th 16-bit code)
+	// decodes to in each space, with its neighbours - values a caller feeds straight back
+	for _, s := range libSpaces {
+		if s.From8 == nil {
+			continue
+		}
+		for c := 0; c < 256; c++ {
+			add(s.From8(uint8(c)))
+		}
+		for c := 0; c < 65536; c += 16 {
+			add(s.From16(uint16(c + (c>>4)%16)))
+		}
+	}
 	// 4096 points per binade of [2^-149, 2)
 	rng := core.NewRNG(seed, "C02", "binade")
 	for exp := 0; exp <= 127; exp++ { // biased exponent 0 (denormals) .. 127 ([1,2))
